@@ -139,16 +139,19 @@ pub mod tokio {
             { unimplemented!() }
         }
 
-        pub struct OpenOptions { pub r: bool, pub w: bool, pub c: bool }
+        pub struct OpenOptions { pub r: bool, pub w: bool, pub c: bool, pub t: bool }
         impl OpenOptions {
-            pub fn new() -> (o: Self) { OpenOptions { r: false, w: false, c: false } }
-            pub fn read(self, v: bool) -> (o: Self) { OpenOptions { r: v, w: self.w, c: self.c } }
-            pub fn write(self, v: bool) -> (o: Self) { OpenOptions { r: self.r, w: v, c: self.c } }
-            pub fn create(self, v: bool) -> (o: Self) { OpenOptions { r: self.r, w: self.w, c: v } }
-            /// opens (creating an empty file if absent): the handle sees the file's bytes, cursor at 0
+            pub fn new() -> (o: Self) ensures !o.t { OpenOptions { r: false, w: false, c: false, t: false } }
+            pub fn read(self, v: bool) -> (o: Self) ensures o.t == self.t { OpenOptions { r: v, w: self.w, c: self.c, t: self.t } }
+            pub fn write(self, v: bool) -> (o: Self) ensures o.t == self.t { OpenOptions { r: self.r, w: v, c: self.c, t: self.t } }
+            pub fn create(self, v: bool) -> (o: Self) ensures o.t == self.t { OpenOptions { r: self.r, w: self.w, c: v, t: self.t } }
+            pub fn truncate(self, v: bool) -> (o: Self) ensures o.t == v { OpenOptions { r: self.r, w: self.w, c: self.c, t: v } }
+            /// opens (creating an empty file if absent): the handle sees the file's bytes — none when the file is opened with
+            /// `truncate(true)` — cursor at 0
             #[verifier::external_body]
             pub async fn open<P: VxPath>(self, path: P) -> (r: Result<File, IoError>)
-                ensures r is Ok ==> r.unwrap().contents() == crate::disk_at_open(path.vx_path()) && r.unwrap().pos() == 0,
+                ensures r is Ok ==> r.unwrap().pos() == 0
+                    && r.unwrap().contents() == (if self.t { Seq::<u8>::empty() } else { crate::disk_at_open(path.vx_path()) }),
             { unimplemented!() }
         }
 
